@@ -270,10 +270,12 @@ inductive TimeForm | utc | generalized
 def marshalTimeForm (year : Nat) : TimeForm := if 1950 ≤ year ∧ year < 2050 then .utc else .generalized
 
 /-- `CRLMetaInfo.NextUpdate` carries `asn1:"tag:0,optional"` (implicit tag, no `generalized`): the tag hides which
-form was written and `asn1.Unmarshal` reads the content as UTCTime. `none` = field absent (zero time, omitted). -/
+form was written and `asn1.Unmarshal` reads the content as UTCTime. `none` = field absent (zero time, omitted).
+With the fallback of `DeserializeMetaInfo` (regenerated fact) a value rejected that way is read again with the
+`generalized` parameter, which accepts exactly the other form. -/
 def metaNextUpdateReadable : Option Nat → Bool
   | none => true
-  | some year => marshalTimeForm year == .utc
+  | some year => marshalTimeForm year == .utc || Generated.Store.metaGeneralizedFallback
 
 /-! ## Operation sequences (C18) -/
 
